@@ -446,7 +446,7 @@ fn directed() -> Vec<Case> {
         ],
         ..base.clone()
     });
-    // 3. the sequence of the property text: overwrite via bulk load (mirror not refreshed) -> drain ->
+    // 3. the sequence of the property text: overwrite via bulk load (mirror dropped since b64dfda) -> drain ->
     //    delete -> reinsert of the same vector -> cached read, capacity 1
     for strategy in [0u8, 2, 4] {
         out.push(Case {
